@@ -913,14 +913,15 @@ func (c *Ctx) c01Goroutines() {
 				if !ok {
 					continue
 				}
-				mc, ok := g.Call.Value.(*ssa.MakeClosure)
-				if !ok {
+				cl, mc := goBody(g)
+				if cl == nil {
 					continue
 				}
-				cl := mc.Fn.(*ssa.Function)
 				n++
 				key := shortFn(fn) + ": goroutine " + cl.Name()
 				bad := ""
+				// a named function started as goroutine reaches the spawner's state through its pointer-like arguments
+				capturedRoot := func(v ssa.Value) bool { return sharedRoot(v, mc == nil) }
 				for _, f := range core.WithClosures(cl) {
 					for _, bb := range f.Blocks {
 						for _, x := range bb.Instrs {
@@ -940,6 +941,9 @@ func (c *Ctx) c01Goroutines() {
 								fromParam := core.Mentions(y.Key, func(v ssa.Value) bool {
 									switch p := v.(type) {
 									case *ssa.Parameter:
+										if mc == nil && pointerLike(p.Type()) {
+											return false // shared state handed to a named goroutine body, not its own index
+										}
 										return p.Parent() == cl
 									case *ssa.FreeVar:
 										// a parameter of the goroutine captured by its own nested closure
@@ -978,7 +982,11 @@ func (c *Ctx) c01Goroutines() {
 				}
 				after := core.Reach([]core.Point{core.After(g)}, isWait, nil)
 				shared := ""
-				for bi, bnd := range mc.Bindings {
+				var bindings []ssa.Value
+				if mc != nil {
+					bindings = mc.Bindings // a named body receives its arguments by value when the goroutine starts
+				}
+				for bi, bnd := range bindings {
 					al, isAlloc := bnd.(*ssa.Alloc)
 					if !isAlloc || bi >= len(cl.FreeVars) {
 						continue
@@ -1057,6 +1065,54 @@ func (c *Ctx) c01Cache() {
 var _ = sort.Strings
 
 // capturedRoot: the address / map value is rooted in a captured (free) variable rather than in a local.
+// goBody: the function a go statement runs, when it is a closure literal (mc != nil) or a statically known
+// function / method of the module (mc == nil).
+func goBody(g *ssa.Go) (*ssa.Function, *ssa.MakeClosure) {
+	if mc, ok := g.Call.Value.(*ssa.MakeClosure); ok {
+		if f, ok := mc.Fn.(*ssa.Function); ok {
+			return f, mc
+		}
+		return nil, nil
+	}
+	if sc := g.Call.StaticCallee(); sc != nil && len(sc.Blocks) > 0 {
+		return sc, nil
+	}
+	return nil, nil
+}
+
+func pointerLike(t types.Type) bool {
+	switch t.Underlying().(type) {
+	case *types.Pointer, *types.Map, *types.Slice, *types.Chan, *types.Interface:
+		return true
+	}
+	return false
+}
+
+// sharedRoot: v is rooted in state that outlives the goroutine: a captured variable, or - for a named body - a
+// pointer-like parameter.
+func sharedRoot(v ssa.Value, named bool) bool {
+	for i := 0; i < 8; i++ {
+		switch x := v.(type) {
+		case *ssa.FieldAddr:
+			v = x.X
+		case *ssa.IndexAddr:
+			v = x.X
+		case *ssa.UnOp:
+			if x.Op != token.MUL {
+				return false
+			}
+			v = x.X
+		case *ssa.FreeVar:
+			return true
+		case *ssa.Parameter:
+			return named && pointerLike(x.Type())
+		default:
+			return false
+		}
+	}
+	return false
+}
+
 func capturedRoot(v ssa.Value) bool {
 	for i := 0; i < 8; i++ {
 		switch x := v.(type) {
